@@ -4,6 +4,56 @@ use std::fmt;
 
 pub type ObjId = u32;
 
+/// Slot numbers >= REL are relative to the end of the slot table at execution time:
+/// REL + k names the k-th most recently created slot (used by destructor scripts, which cannot
+/// know absolute slot numbers in advance).
+pub const REL: usize = 1 << 40;
+
+pub fn rel(k: usize) -> usize {
+    REL + k
+}
+
+fn norm_slot(s: usize, len: usize) -> usize {
+    if s >= REL {
+        len.wrapping_sub(1 + (s - REL))
+    } else {
+        s
+    }
+}
+
+impl Op {
+    /// Resolve relative slot numbers against the current table sizes.
+    pub fn normalize(&self, hlen: usize, wlen: usize) -> Op {
+        let h = |r: &HRef| match r {
+            HRef::P(s) => HRef::P(norm_slot(*s, hlen)),
+            x => *x,
+        };
+        let w = |r: &WRef| match r {
+            WRef::P(s) => WRef::P(norm_slot(*s, wlen)),
+            x => *x,
+        };
+        match self {
+            Op::Clone(r) => Op::Clone(h(r)),
+            Op::Drop(s) => Op::Drop(norm_slot(*s, hlen)),
+            Op::Store(o, s) => Op::Store(*o, norm_slot(*s, hlen)),
+            Op::Adopt(a, b) => Op::Adopt(h(a), h(b)),
+            Op::Unadopt(a, b) => Op::Unadopt(h(a), h(b)),
+            Op::Downgrade(r) => Op::Downgrade(h(r)),
+            Op::Upgrade(r) => Op::Upgrade(w(r)),
+            Op::CloneWeak(r) => Op::CloneWeak(w(r)),
+            Op::DropWeak(s) => Op::DropWeak(norm_slot(*s, wlen)),
+            Op::StoreWeak(o, s) => Op::StoreWeak(*o, norm_slot(*s, wlen)),
+            Op::TryUnwrap(s) => Op::TryUnwrap(norm_slot(*s, hlen)),
+            Op::MakeMut(s) => Op::MakeMut(norm_slot(*s, hlen)),
+            Op::GetMut(s) => Op::GetMut(norm_slot(*s, hlen)),
+            Op::RawRound(s) => Op::RawRound(norm_slot(*s, hlen)),
+            Op::IncStrong(r) => Op::IncStrong(h(r)),
+            Op::DecStrong(s) => Op::DecStrong(norm_slot(*s, hlen)),
+            other => other.clone(),
+        }
+    }
+}
+
 /// Reference to a strong handle: a program slot, or the k-th handle stored in an object's value.
 #[derive(Clone, Copy, PartialEq, Eq, Debug, Hash)]
 pub enum HRef {
@@ -63,15 +113,32 @@ pub enum Op {
 impl fmt::Display for HRef {
     fn fmt(&self, f: &mut fmt::Formatter<'_>) -> fmt::Result {
         match self {
-            HRef::P(s) => write!(f, "p{}", s),
+            HRef::P(s) => write!(f, "p{}", fmt_slot(*s)),
             HRef::S(o, k) => write!(f, "s{}.{}", o, k),
         }
     }
 }
+
+pub fn fmt_slot(s: usize) -> String {
+    if s >= REL {
+        format!("^{}", s - REL)
+    } else {
+        s.to_string()
+    }
+}
+
+fn parse_slot(s: &str) -> Option<usize> {
+    if let Some(r) = s.strip_prefix('^') {
+        r.parse::<usize>().ok().map(|k| REL + k)
+    } else {
+        s.parse().ok()
+    }
+}
+
 impl fmt::Display for WRef {
     fn fmt(&self, f: &mut fmt::Formatter<'_>) -> fmt::Result {
         match self {
-            WRef::P(s) => write!(f, "p{}", s),
+            WRef::P(s) => write!(f, "p{}", fmt_slot(*s)),
             WRef::S(o, k) => write!(f, "s{}.{}", o, k),
         }
     }
@@ -82,24 +149,24 @@ impl fmt::Display for Op {
         match self {
             Op::New => write!(f, "new"),
             Op::Clone(h) => write!(f, "clone:{}", h),
-            Op::Drop(s) => write!(f, "drop:{}", s),
-            Op::Store(o, s) => write!(f, "store:{}:{}", o, s),
+            Op::Drop(s) => write!(f, "drop:{}", fmt_slot(*s)),
+            Op::Store(o, s) => write!(f, "store:{}:{}", o, fmt_slot(*s)),
             Op::Take(o, k) => write!(f, "take:{}:{}", o, k),
             Op::Adopt(a, b) => write!(f, "adopt:{}:{}", a, b),
             Op::Unadopt(a, b) => write!(f, "unadopt:{}:{}", a, b),
             Op::Downgrade(h) => write!(f, "downgrade:{}", h),
             Op::Upgrade(w) => write!(f, "upgrade:{}", w),
             Op::CloneWeak(w) => write!(f, "wclone:{}", w),
-            Op::DropWeak(s) => write!(f, "wdrop:{}", s),
-            Op::StoreWeak(o, s) => write!(f, "wstore:{}:{}", o, s),
+            Op::DropWeak(s) => write!(f, "wdrop:{}", fmt_slot(*s)),
+            Op::StoreWeak(o, s) => write!(f, "wstore:{}:{}", o, fmt_slot(*s)),
             Op::TakeWeak(o, k) => write!(f, "wtake:{}:{}", o, k),
             Op::WeakNew => write!(f, "wnew"),
-            Op::TryUnwrap(s) => write!(f, "tryunwrap:{}", s),
-            Op::MakeMut(s) => write!(f, "makemut:{}", s),
-            Op::GetMut(s) => write!(f, "getmut:{}", s),
-            Op::RawRound(s) => write!(f, "rawround:{}", s),
+            Op::TryUnwrap(s) => write!(f, "tryunwrap:{}", fmt_slot(*s)),
+            Op::MakeMut(s) => write!(f, "makemut:{}", fmt_slot(*s)),
+            Op::GetMut(s) => write!(f, "getmut:{}", fmt_slot(*s)),
+            Op::RawRound(s) => write!(f, "rawround:{}", fmt_slot(*s)),
             Op::IncStrong(h) => write!(f, "incstrong:{}", h),
-            Op::DecStrong(s) => write!(f, "decstrong:{}", s),
+            Op::DecStrong(s) => write!(f, "decstrong:{}", fmt_slot(*s)),
             Op::Script(o, w, op) => write!(
                 f,
                 "script:{}:{}:[{}]",
@@ -120,7 +187,7 @@ impl fmt::Display for Op {
 
 fn parse_href(s: &str) -> Option<HRef> {
     if let Some(r) = s.strip_prefix('p') {
-        return r.parse().ok().map(HRef::P);
+        return parse_slot(r).map(HRef::P);
     }
     if let Some(r) = s.strip_prefix('s') {
         let (o, k) = r.split_once('.')?;
@@ -150,7 +217,7 @@ pub fn parse_op(s: &str) -> Option<Op> {
         return Some(Op::Script(o.parse().ok()?, when, Box::new(parse_op(inner)?)));
     }
     let parts: Vec<&str> = s.split(':').collect();
-    let u = |i: usize| -> Option<usize> { parts.get(i)?.parse().ok() };
+    let u = |i: usize| -> Option<usize> { parse_slot(parts.get(i)?) };
     let o = |i: usize| -> Option<ObjId> { parts.get(i)?.parse().ok() };
     let h = |i: usize| -> Option<HRef> { parse_href(parts.get(i)?) };
     let w = |i: usize| -> Option<WRef> { parse_wref(parts.get(i)?) };
